@@ -40,7 +40,7 @@ import (
 	kit "verifkit"
 )
 
-const c22Rule = "local peer configuration (iBGP/eBGP, 2-/4-octet local and peer AS, RFC 9234 role off / 5 roles / strict, hold time, add-path send/receive per family, IPv6 family on/off, IPv4 multiprotocol advertised or not) x 1-2 consecutive connections of the same peer, each with a generated OPEN (My AS incl. AS_TRANS + 4-octet capability, right/wrong AS, identifier incl. 0 and ours, hold time {0,1,2,3,5,90,65535}, capability sets incl. duplicates, unknown codes, two different roles, both optional-parameter layouts). Non-trivial: an OPEN that must be rejected for exactly one reason, or an accepted one that negotiates >= 2 capabilities."
+const c22Rule = "local peer configuration (iBGP/eBGP, 2-/4-octet local and peer AS, RFC 9234 role off / 5 roles / strict, hold time, add-path send/receive per family, IPv6 family on/off, IPv4 multiprotocol advertised or not) x 1-2 consecutive connections of the same peer (on fresh FSMs of a passive peer, or both on the own FSM of a non-passive peer), each with a generated OPEN (My AS incl. AS_TRANS + 4-octet capability, right/wrong AS, identifier incl. 0 and ours, hold time {0,1,2,3,5,90,65535}, capability sets incl. duplicates, unknown codes, two different roles, both optional-parameter layouts). Non-trivial: an OPEN that must be rejected for exactly one reason, or an accepted one that negotiates >= 2 capabilities."
 
 const (
 	c22RouterID = 0x0a000001
@@ -67,12 +67,15 @@ type c22Cfg struct {
 	v4Recv, v6Recv  bool
 	v6              bool
 	mp4             bool
+	// active: the peer is not passive; both sessions run on the peer's own FSM (handed a connection through
+	// conCh the way tcpConnector does), so the second session re-uses the FSM object of the first
+	active bool
 }
 
 func (c c22Cfg) ibgp() bool { return c.localAS == c.peerAS }
 
 func (c c22Cfg) String() string {
-	return fmt.Sprintf("localAS=%d peerAS=%d role=%d strict=%v hold=%d v4{send=%d recv=%v mp=%v} v6{on=%v send=%d recv=%v}", c.localAS, c.peerAS, c.role, c.strict, c.hold, c.v4Send, c.v4Recv, c.mp4, c.v6, c.v6Send, c.v6Recv)
+	return fmt.Sprintf("localAS=%d peerAS=%d role=%d strict=%v hold=%d v4{send=%d recv=%v mp=%v} v6{on=%v send=%d recv=%v} active=%v", c.localAS, c.peerAS, c.role, c.strict, c.hold, c.v4Send, c.v4Recv, c.mp4, c.v6, c.v6Send, c.v6Recv, c.active)
 }
 
 type c22Open struct {
@@ -314,6 +317,10 @@ func (c c22Cfg) peerConfig(r *c00Rig, ip bnet.IP) PeerConfig {
 	pc.PeerRole = c.role
 	pc.PeerRoleStrictMode = c.strict
 	pc.AdvertiseIPv4MultiProtocol = c.mp4
+	if c.active {
+		pc.Passive = false
+		pc.ReconnectInterval = time.Millisecond
+	}
 	pc.IPv4.AddPathSend = c22SendOpt(c.v4Send)
 	pc.IPv4.AddPathRecv = c.v4Recv
 	if c.v6 {
@@ -518,10 +525,10 @@ func c22Teardown(c *kit.Conn, f *FSM) {
 			panic(r)
 		}
 	}()
-	if s := c00State(f); s != stateNameIdle {
+	if s := c00State(f); !c22IsDown(s) {
 		select {
 		case f.eventCh <- ManualStop:
-			c00WaitState(f, stateNameIdle)
+			c22WaitDown(f)
 		case <-time.After(2 * time.Second):
 		}
 	}
@@ -530,6 +537,14 @@ func c22Teardown(c *kit.Conn, f *FSM) {
 		(&establishedState{fsm: f}).uninit()
 	}
 }
+
+// c22IsDown: the session is over. A passive peer's FSM stays in Idle; the FSM of an active peer restarts by
+// itself and is in Connect or Active soon after.
+func c22IsDown(state string) bool {
+	return state == stateNameIdle || state == stateNameConnect || state == stateNameActive
+}
+
+func c22WaitDown(f *FSM) { c00WaitState(f, stateNameIdle, stateNameConnect, stateNameActive) }
 
 func c22Has(ns [][2]uint8, code, sub uint8) bool {
 	for _, n := range ns {
@@ -561,7 +576,31 @@ type c22Ctx struct {
 // a violation text ("" = fine).
 func c22Session(x *c22Ctx, o c22Open, sessNo int) string {
 	r := x.env.rig
-	conn, f := r.c00Connect(x.ip)
+	var conn *kit.Conn
+	var f *FSM
+	if x.cfg.active {
+		f = r.c00FSMs(x.ip)[0]
+		if c00State(f) == stateNameIdle {
+			// a stopped FSM waits for a start event (the first start comes from AddPeer)
+			select {
+			case f.eventCh <- AutomaticStart:
+			case <-time.After(c00Deadline):
+				panic(c00Inconclusive{"idle FSM did not take AutomaticStart"})
+			}
+		}
+		c00WaitState(f, stateNameConnect)
+		conn = kit.NewConn(nil, nil)
+		select {
+		case f.conCh <- conn:
+		case <-time.After(c00Deadline):
+			panic(c00Inconclusive{"outgoing FSM did not take the connection"})
+		}
+		if !conn.WaitWritten(19, c00Deadline) {
+			panic(c00Inconclusive{"outgoing FSM sent no OPEN"})
+		}
+	} else {
+		conn, f = r.c00Connect(x.ip)
+	}
 	defer c22Teardown(conn, f)
 	msgs := c00Msgs(conn)
 	if len(msgs) == 0 || msgs[0][18] != kit.MsgOpen {
@@ -596,7 +635,7 @@ func c22Session(x *c22Ctx, o c22Open, sessNo int) string {
 		return s != stateNameOpenSent && s != stateNameActive && s != stateNameConnect
 	})
 	if conn.Closed() {
-		c00WaitState(f, stateNameIdle)
+		c22WaitDown(f)
 	}
 	state := c00State(f)
 	ns := c00Notifications(conn)
@@ -616,7 +655,7 @@ func c22Session(x *c22Ctx, o c22Open, sessNo int) string {
 		if !conn.Closed() {
 			return fmt.Sprintf("OPEN rejected with NOTIFICATION %d/%d but the connection was not closed (state %s)", ns[0][0], ns[0][1], state)
 		}
-		if state != stateNameIdle {
+		if !c22IsDown(state) {
 			return fmt.Sprintf("OPEN rejected but FSM state is %s", state)
 		}
 		// a KEEPALIVE afterwards must not revive anything
@@ -782,7 +821,7 @@ func c22Session(x *c22Ctx, o c22Open, sessNo int) string {
 	x.c.Class("wire-checked")
 	// peer-initiated shutdown
 	conn.Feed(kit.Notification(6, 2, nil))
-	c00WaitState(f, stateNameIdle)
+	c22WaitDown(f)
 	return ""
 }
 
@@ -804,6 +843,7 @@ func TestVerifC22Open(t *testing.T) {
 		nsess := 1
 		if rapid.IntRange(0, 3).Draw(t, "twoSessions") == 0 {
 			nsess = 2
+			cfg.active = rapid.Bool().Draw(t, "sameFSM")
 		}
 		var opens []c22Open
 		for i := 0; i < nsess; i++ {
@@ -824,6 +864,7 @@ func TestVerifC22Open(t *testing.T) {
 		c.ClassIf(cfg.ibgp(), "ibgp")
 		c.ClassIf(!cfg.ibgp(), "ebgp")
 		c.ClassIf(nsess == 2, "two-sessions")
+		c.ClassIf(cfg.active, "two-sessions-on-one-fsm")
 		c.ClassIf(cfg.role != 0 && !cfg.ibgp(), "role-configured")
 		c00Journal("C22 case %d cfg=%v opens=%v", caseNo, cfg, opens)
 
